@@ -808,6 +808,7 @@ def main(argv=None):
                                  'mismatches': len(tot['selftest']['mismatch']) + len(xproc['mismatch'])},
         'configurations_skipped_because_the_fault_free_run_raised': tot['ref_failed'][:20],
         'regression_replays_of_fixed_findings': regressions,
+        'aggregate_digest_of_reference_runs': '%016x' % (sum(core.h64((i, d)) for i, d, _ in digests) % (1 << 64)),
         'stopped_by_wall_cap': bool(stopped),
         'processes': nproc,
         'real_code': ['tenpy.simulations (Simulation.save_results, save_at_checkpoint, from_saved_checkpoint, '
